@@ -58,6 +58,7 @@ func cmdCheck(args []string) int {
 	extra := fs.String("extra", "", "JSON file with results of bounded stand-ins to merge into the evidence")
 	outdirFlag := fs.String("outdir", "", "scratch directory (default <verif>/out/<prop>)")
 	noEvidence := fs.Bool("noevidence", false, "do not write the evidence file (self-tests on scratch copies)")
+	noRetry := fs.Bool("noretry", false, "no second attempt with a longer limit for undecided obligations (must-fail runs: an undecided obligation is the expected outcome)")
 	_ = fs.Parse(args)
 	t0 := time.Now()
 	seed := 0
@@ -129,6 +130,7 @@ func cmdCheck(args []string) int {
 		timeout = 180 * time.Second
 	}
 	cfg := &solveCfg{outDir: outDir, timeout: timeout, first: 4 * time.Second, workers: 12, stats: newSolverStats(), agree: *tier == "thorough"}
+	cfg.retried = *noRetry
 	cfg.expectFail = map[string]bool{}
 	for _, k := range known {
 		if k.Status != "fixed" {
